@@ -22,7 +22,7 @@ func init() {
 			"non-trivial = both runs error-free and the results differed (the marked input demonstrably influenced the output); distinct by program + scope hash",
 		Assumptions: []string{"cty mark propagation inside cty operations and function calls is trusted (the property is about hcl's own operators and evaluators)", "no harness function strips marks"},
 		Quick:       Plan{Batches: 16, PerBatch: 6000, MinNonTrivial: 12000},
-		Thorough:    Plan{Batches: 64, PerBatch: 30000, MinNonTrivial: 150000},
+		Thorough:    Plan{Batches: 64, PerBatch: 120000, MinNonTrivial: 150000},
 		Case:        c06Case,
 	})
 }
